@@ -134,13 +134,12 @@ def run_sub(
     out = p.stdout.decode("utf-8", "replace")
     err = p.stderr.decode("utf-8", "replace")
     crash = None
-    if "Traceback (most recent call last)" in err and p.returncode not in (0, 2):
-        # A logged traceback of a handled per-file error is printed through the
-        # logging module ("reuse.report - ERROR"); an unhandled one ends the
-        # process with status 1 and the traceback is the tail of stderr.
+    if "Traceback (most recent call last)" in err and p.returncode not in (0, 2) and not out.strip():
+        # A handled per-file error is logged with its traceback too, but then the
+        # command still prints its report; an unhandled exception ends the process
+        # with status 1 and nothing on stdout.
         tail = err.strip().splitlines()[-1] if err.strip() else ""
-        if p.returncode == 1 and not tail.startswith("reuse") and ":" in tail and "Error" in tail.split(":")[0]:
-            crash = RuntimeError(tail)
+        crash = RuntimeError(tail)
     return Result([str(a) for a in args], p.returncode, out, err, crash)
 
 
